@@ -120,11 +120,21 @@ def eval_history(arg):
                     server = new_server()
                     restarts += 1
                     dcheck(server, targets)
+                elif full["status"] == 2:
+                    # a blocking error: batch mypy also prints what earlier SCCs produced and exits 2, the daemon answers
+                    # with the blocker alone and status 1 - a listed difference; such steps are not compared, the steps
+                    # AFTER the blocker is gone are
+                    rec["blocker_step"] = True
                 else:
+                    blocker_status = d["status"] == 1 and full["status"] == 2
+                    if blocker_status:
+                        d = dict(d, status=2)  # compare the diagnostics on their own; the status difference is reported separately
                     c = histrun.compare(d, full)
+                    if not c and blocker_status:
+                        c = ("exit-status-blocker", "daemon status 1, batch exit status 2 (same diagnostics)", [])
                     if c:
                         rec["problem"] = (c[0], c[1], c[2] if len(c) > 2 else [])
-                        if c[0] not in ("same-line-order", "advisory-note-placement"):
+                        if c[0] not in ("same-line-order", "advisory-note-placement", "exit-status-blocker"):
                             # a wrong answer may poison later steps: restart so that each finding is independent
                             server = new_server()
                             restarts += 1
@@ -170,6 +180,8 @@ def judge(run: Run, res) -> None:
         if rec.get("oracle_crashed"):
             run.label("oracle_crashed_step_skipped")
             continue
+        if rec.get("blocker_step"):
+            run.label("blocker_steps_not_compared")
         last = rec["op"]["op"] if rec["op"] else "initial"
         run.label("edit:" + last)
         if rec.get("partial"):
@@ -179,7 +191,7 @@ def judge(run: Run, res) -> None:
             case = {"seed": res["seed"], "nmods": res["nmods"], "nsteps": res["nsteps"], "profile": res["profile"], "step": rec["step"], "st0": res["st0"], "ops": res["ops"][: rec["step"]]}
             if klass == "crash":
                 sg = "crash|" + (crash_signature(detail, "daemon") or "daemon|unparsed")
-            elif klass in ("same-line-order", "advisory-note-placement"):
+            elif klass in ("same-line-order", "advisory-note-placement", "exit-status-blocker"):
                 sg = klass
             else:
                 direction = {"stale-diagnostic": "stale-survives", "missing-diagnostic": "missed"}.get(klass, klass)
